@@ -465,10 +465,10 @@ func main() {
 	gres = append(gres, generate("PyScopeLocset", "locset.cfg", "locset", nil, wGen))
 	gres = append(gres, generate("PyScopeBFS", "bfs_"+tier+".cfg", "bfs", nil, wGen))
 	gres = append(gres, generate("PyScopeFlags", "flags_"+tier+".cfg", "flags", nil, wGen))
-	shards, per := 1, 3500
+	shards, per := 1, 3000
 	if env.Thorough() {
 		gres = append(gres, generate("PyScopeFlags", "flags_thorough2.cfg", "flags", nil, wGen))
-		shards, per = 6, 25000
+		shards, per = 5, 25000
 	}
 	for s := 0; s < shards; s++ {
 		gres = append(gres, generate("PyScopeDice", "dice.cfg", "dice", map[string]string{"dice.ndjson": dice(rng, per)}, wGen))
